@@ -402,7 +402,7 @@ Qed.
 Lemma xaccepts_spec : forall c m tr, waits_for_marker m = true -> 0 < batch c ->
   xaccepts c m tr = true ->
   yields_of (base_events tr) = chunks (batch c) (delivered c) /\
-  gets_of (base_events tr) = map Frame (delivered c) ++ [Sentinel].
+  gets_of (base_events tr) = map (fr c) (delivered c) ++ [Sentinel].
 Proof.
   intros c m tr Hm Hb H. destruct (xaccepts_sound c m tr H) as (ls & x & Hp & Ho & Hr & Hf).
   destruct (poll_final_state c m x Hm Hb Hr Hf) as (_ & _ & Htk & _ & Hy).
@@ -431,11 +431,11 @@ Qed.
 Definition giveup_cfg := mkCfg 0 1 2 1 None.      (* one frame, capacity 2, batch 1, no read failure *)
 Definition giveup_trace : list xevent :=
   [XEv EvStart; XTimeout;                                   (* the consumer finds the queue empty *)
-   XEv (EvReadOk 0); XEv (EvPut 0); XEv EvPutSent;          (* the reader delivers everything and ends *)
+   XEv (EvReadOk 0); XEv (EvPut 0 pl0); XEv EvPutSent;          (* the reader delivers everything and ends *)
    XAlive false;                                            (* only now the consumer looks: reader dead *)
    XEv EvJoin].
 Definition giveup_end : xst :=
-  mkX (mkSt PDone [Frame 0; Sentinel] CFinished true [] []) false.
+  mkX (mkSt PDone [Frame 0 pl0; Sentinel] CFinished true [] []) false.
 
 Lemma giveup_run : xrun_trace giveup_cfg GiveUp (xinit giveup_cfg) giveup_trace = Some giveup_end.
 Proof. vm_compute. reflexivity. Qed.
@@ -446,7 +446,7 @@ Proof. vm_compute. reflexivity. Qed.
 (* a complete run that ends "normally" with the frame and the marker still in the queue *)
 Lemma giveup_loses_frames : exists c x,
   0 < batch c /\ fault c = None /\ xreach c GiveUp x /\ xfinal x /\
-  delivered c = [0] /\ yielded (base x) = [] /\ q (base x) = [Frame 0; Sentinel].
+  delivered c = [0] /\ yielded (base x) = [] /\ q (base x) = [Frame 0 pl0; Sentinel].
 Proof.
   exists giveup_cfg, giveup_end.
   destruct (xrun_trace_sound _ _ _ _ _ giveup_run) as (ls & Hp & _).
@@ -468,7 +468,7 @@ Lemma giveup_trace_not_polling : xaccepts giveup_cfg Polling giveup_trace = fals
 Proof. vm_compute. reflexivity. Qed.
 
 Definition polling_trace : list xevent :=
-  [XEv EvStart; XTimeout; XEv (EvReadOk 0); XTimeout; XEv (EvPut 0); XEv (EvGet 0); XEv (EvYield [0]);
+  [XEv EvStart; XTimeout; XEv (EvReadOk 0); XTimeout; XEv (EvPut 0 pl0); XEv (EvGet 0 pl0); XEv (EvYield [0]);
    XTimeout; XEv EvPutSent; XEv EvGetSent; XEv EvJoin].
 
 Lemma polling_trace_accepted :
@@ -479,47 +479,120 @@ Proof. vm_compute. split; reflexivity. Qed.
 (* reader construction                                                         *)
 
 Lemma video_cfg_unfold : forall r,
-  video_cfg r = mkCfg (match vr_start r with Some s => s | None => 0 end)
-                      (match vr_end r with Some e => e | None => vr_frames r end)
-                      (vr_cap r) (vr_batch r) (vr_fault r).
+  video_cfg r = mkCfgS (vr_start_ r) (vr_end_ r) (vr_cap r) (vr_batch r) (video_fault r) (vr_src r).
 Proof. reflexivity. Qed.
 
-(* which frames a request delivers, in elementary terms *)
+Lemma video_fault_unfold : forall r,
+  video_fault r =
+  opt_min (match vr_fault r with Some x => if vr_start_ r <=? x then Some x else None | None => None end)
+          (if vr_frames r <? vr_end_ r then Some (Nat.max (vr_start_ r) (vr_frames r)) else None).
+Proof. reflexivity. Qed.
+
+(* which frames a request delivers, in elementary terms: the frames of the requested range that
+   exist in the video and lie before the first frame of the range that cannot be decoded *)
 Lemma video_request_delivered : forall r i,
   In i (delivered (video_cfg r)) <->
-  ((match vr_start r with Some s => s | None => 0 end) <= i
-     < (match vr_end r with Some e => e | None => vr_frames r end) /\
-   forall f, vr_fault r = Some f -> (match vr_start r with Some s => s | None => 0 end) <= f -> i < f).
-Proof. intros r i. rewrite delivered_in. reflexivity. Qed.
+  (vr_start_ r <= i < vr_end_ r /\ i < vr_frames r /\
+   forall f, vr_fault r = Some f -> vr_start_ r <= f -> i < f).
+Proof.
+  intros r i. rewrite delivered_in. unfold video_cfg. cbn [start_ end_ fault].
+  unfold video_fault, in_range_fault, overrun_fault.
+  destruct (vr_fault r) as [f|];
+    [destruct (Nat.leb_spec (vr_start_ r) f)|]; destruct (Nat.ltb_spec (vr_frames r) (vr_end_ r)); simpl;
+    (split;
+     [ intros [H1 H2]; try (specialize (H2 _ eq_refl)); split; [lia|]; split; [lia|];
+       intros g E Hg; try discriminate; injection E as <-; lia
+     | intros (H1 & H2 & H3); try (specialize (H3 _ eq_refl)); split; [lia|];
+       intros g E Hg; try discriminate; injection E as <-; lia ]).
+Qed.
+
+(* a range inside the video: the length plays no role (the request model of rounds 2-3) *)
+Lemma video_within_length : forall r, vr_end_ r <= vr_frames r ->
+  video_fault r = in_range_fault (vr_start_ r) (vr_fault r) /\
+  delivered (video_cfg r) = delivered (mkCfg (vr_start_ r) (vr_end_ r) (vr_cap r) (vr_batch r) (vr_fault r)).
+Proof.
+  intros r H. assert (E : video_fault r = in_range_fault (vr_start_ r) (vr_fault r)).
+  { unfold video_fault, overrun_fault. destruct (Nat.ltb_spec (vr_frames r) (vr_end_ r)); [lia|].
+    destruct (in_range_fault _ _); reflexivity. }
+  split; auto. unfold delivered, stop, video_cfg. cbn [start_ end_ fault]. rewrite E.
+  unfold in_range_fault. destruct (vr_fault r) as [f|]; auto.
+  destruct (Nat.leb_spec (vr_start_ r) f) as [Hl|Hl]; auto.
+  destruct (Nat.leb_spec (vr_start_ r) f); auto; lia.
+Qed.
+
+(* a range that runs past the end of the video: reading index vr_frames r fails (IndexError), the
+   frames of the range that exist are delivered (when none of them fails to decode) *)
+Lemma video_overrun : forall r, vr_frames r < vr_end_ r ->
+  (exists g, video_fault r = Some g /\ vr_start_ r <= g <= Nat.max (vr_start_ r) (vr_frames r)) /\
+  ((forall f, vr_fault r = Some f -> vr_start_ r <= f -> vr_frames r <= f) ->
+   delivered (video_cfg r) = seq (vr_start_ r) (vr_frames r - vr_start_ r)).
+Proof.
+  intros r H. unfold delivered, stop, video_cfg. cbn [start_ end_ fault].
+  unfold video_fault, in_range_fault, overrun_fault.
+  destruct (Nat.ltb_spec (vr_frames r) (vr_end_ r)); [|lia].
+  destruct (vr_fault r) as [f|]; [destruct (Nat.leb_spec (vr_start_ r) f)|]; simpl.
+  - split; [eexists; split; [reflexivity|lia]|]. intros Hf. specialize (Hf _ eq_refl).
+    destruct (Nat.leb_spec (vr_start_ r) (Nat.min f (Nat.max (vr_start_ r) (vr_frames r)))); f_equal; lia.
+  - split; [eexists; split; [reflexivity|lia]|]. intros _.
+    destruct (Nat.leb_spec (vr_start_ r) (Nat.max (vr_start_ r) (vr_frames r))); f_equal; lia.
+  - split; [eexists; split; [reflexivity|lia]|]. intros _.
+    destruct (Nat.leb_spec (vr_start_ r) (Nat.max (vr_start_ r) (vr_frames r))); f_equal; lia.
+Qed.
+
+Lemma video_fault_none_iff : forall r,
+  video_fault r = None <->
+  ((forall f, vr_fault r = Some f -> f < vr_start_ r) /\ vr_end_ r <= vr_frames r).
+Proof.
+  intros r. unfold video_fault, in_range_fault, overrun_fault.
+  destruct (vr_fault r) as [f|]; [destruct (Nat.leb_spec (vr_start_ r) f)|];
+    destruct (Nat.ltb_spec (vr_frames r) (vr_end_ r)); simpl; split;
+    try discriminate; try (intros [H1 H2]; try specialize (H1 _ eq_refl); lia);
+    intros _; split; try lia; intros g E; try discriminate; injection E as <-; lia.
+Qed.
 
 (* end_idx = 0 is the empty range, not "until the end of the video" *)
 Lemma video_end_zero_empty : forall r, vr_end r = Some 0 -> delivered (video_cfg r) = [].
 Proof.
   intros r H. unfold delivered. pose proof (stop_le_end (video_cfg r)) as Hle.
-  unfold video_cfg in *. rewrite H in *. simpl in *.
+  assert (E : end_ (video_cfg r) = 0) by (unfold video_cfg, vr_end_; rewrite H; reflexivity).
   replace (stop _ - _) with 0 by lia. reflexivity.
 Qed.
 
 Lemma video_defaults_whole : forall n cp b,
   delivered (video_cfg (mkVReq n None None cp b None)) = seq 0 n.
-Proof. intros. unfold delivered, stop, video_cfg. simpl. rewrite Nat.sub_0_r. reflexivity. Qed.
+Proof.
+  intros. unfold delivered, stop, video_cfg, video_fault, overrun_fault, in_range_fault, vr_start_, vr_end_.
+  simpl. rewrite Nat.ltb_irrefl. simpl. rewrite Nat.sub_0_r. reflexivity.
+Qed.
 
-(* total_len() counts the frames delivered when no read fails (and is negative for an inverted range) *)
-Lemma video_total_len_ok : forall r, vr_fault r = None ->
+(* total_len() counts the frames delivered when no read fails (and is negative for an inverted range);
+   "no read fails" includes: the range does not run past the end of the video (video_fault_none_iff) *)
+Lemma video_total_len_ok : forall r, video_fault r = None ->
   fst (video_total_len r) = length (delivered (video_cfg r)) /\
   (snd (video_total_len r) = 0 \/ delivered (video_cfg r) = []).
 Proof.
   intros r H. assert (Es : stop (video_cfg r) = end_ (video_cfg r)).
-  { unfold stop. replace (fault (video_cfg r)) with (vr_fault r) by reflexivity. rewrite H. reflexivity. }
+  { unfold stop. replace (fault (video_cfg r)) with (video_fault r) by reflexivity. rewrite H. reflexivity. }
   unfold video_total_len, delivered. rewrite Es, seq_length. cbn [fst snd]. split; [reflexivity|].
   destruct (le_lt_dec (start_ (video_cfg r)) (end_ (video_cfg r))); [left; lia | right].
   replace (end_ (video_cfg r) - start_ (video_cfg r)) with 0 by lia. reflexivity.
 Qed.
 
+(* observation: for a range that runs past the end of the video total_len() over-reports *)
+Lemma video_total_len_overrun : forall r,
+  vr_fault r = None -> vr_start_ r <= vr_frames r -> vr_frames r < vr_end_ r ->
+  length (delivered (video_cfg r)) = vr_frames r - vr_start_ r /\
+  length (delivered (video_cfg r)) < fst (video_total_len r).
+Proof.
+  intros r Hf Hs He. destruct (video_overrun r He) as [_ Hd].
+  rewrite Hd by (intros f E; rewrite Hf in E; discriminate).
+  rewrite seq_length. split; auto. unfold video_total_len, video_cfg. cbn [fst start_ end_]. lia.
+Qed.
+
 Lemma opt_min_none_r : forall a, opt_min a None = a.
 Proof. destruct a; reflexivity. Qed.
 
-Lemma stop_labels : forall n cp b f, stop (mkCfg 0 n cp b f) = match f with Some x => Nat.min x n | None => n end.
+Lemma stop_labels : forall n cp b f sr, stop (mkCfgS 0 n cp b f sr) = match f with Some x => Nat.min x n | None => n end.
 Proof. intros. unfold stop. simpl. destruct f; reflexivity. Qed.
 
 (* F130: outside the selector (and always after the repair) the labels reader delivers what the
@@ -563,6 +636,12 @@ Lemma ex_requests :
   delivered (video_cfg (mkVReq 5 (Some 0) None 1 1 None)) = [0;1;2;3;4] /\
   delivered (video_cfg (mkVReq 5 (Some 2) (Some 4) 1 1 None)) = [2;3] /\
   video_total_len (mkVReq 5 (Some 4) (Some 2) 1 1 None) = (0, 2) /\
+  (* a range that runs past the end of a 3-frame video: frames 0..2, total_len() = 5 *)
+  delivered (video_cfg (mkVReq 3 None (Some 5) 1 1 None)) = [0;1;2] /\
+  video_total_len (mkVReq 3 None (Some 5) 1 1 None) = (5, 0) /\
+  delivered (video_cfg (mkVReq 3 (Some 4) (Some 6) 1 1 None)) = [] /\
+  delivered (video_cfg (mkVReq 3 (Some 1) (Some 6) 1 1 (Some 0))) = [1;2] /\
+  delivered (video_cfg (mkVReq 3 (Some 1) (Some 6) 1 1 (Some 2))) = [1] /\
   bare_frame_selector bare_witness = true /\
   bare_frame_selector (mkLReq 3 2 1 (Some 1) true (Some 1) false) = false /\
   bare_frame_selector (mkLReq 3 2 1 None false (Some 1) false) = false.
@@ -574,15 +653,15 @@ Proof. vm_compute. repeat split; reflexivity. Qed.
 (* a reader waiting at put() on a full queue is moved by nobody but a get of the consumer:
    if the consumer loop has died (the inference callable raised) the reader thread waits for ever *)
 Lemma blocked_reader_needs_get : forall c l s s',
-  lstep c l s s' -> ((exists i, pp s = PPut i) \/ pp s = PSent) -> full c (q s) = true ->
+  lstep c l s s' -> ((exists i p, pp s = PPut i p) \/ pp s = PSent) -> full c (q s) = true ->
   pp s' = pp s /\ (q s' = q s \/ exists x, taken s' = taken s ++ [x]).
 Proof.
   intros c l s s' H Hp Hf.
-  inversion H; subst; simpl; auto; try (destruct Hp as [[j E]|E]; congruence); eauto.
+  inversion H; subst; simpl; auto; try (destruct Hp as [(j & pj & E)|E]; congruence); eauto.
 Qed.
 
 Definition crash_cfg := mkCfg 0 3 1 1 None.
-Definition crash_state : st := mkSt (PPut 2) [Frame 1] (CProcess [0]) false [] [Frame 0].
+Definition crash_state : st := mkSt (PPut 2 pl0) [Frame 1 pl0] (CProcess [0]) false [] [Frame 0 pl0].
 
 (* the consumer is about to call the inference callable on frame 0 while the reader is already
    waiting at put() on the full queue *)
@@ -591,7 +670,7 @@ Lemma crash_state_reachable :
 Proof.
   split; [|reflexivity].
   assert (E : run_trace crash_cfg (init crash_cfg)
-                [EvStart; EvReadOk 0; EvPut 0; EvGet 0; EvReadOk 1; EvPut 1; EvReadOk 2] = Some crash_state)
+                [EvStart; EvReadOk 0; EvPut 0 pl0; EvGet 0 pl0; EvReadOk 1; EvPut 1 pl0; EvReadOk 2] = Some crash_state)
     by (vm_compute; reflexivity).
   apply run_trace_sound in E. eapply ltrace_reach; eauto. apply reach_init.
 Qed.
@@ -676,7 +755,8 @@ Proof.
   split; [lia|]. intros Eq. rewrite Eq in E. simpl in E. lia.
 Qed.
 
-Lemma no_timeout_after_death : forall c m x x',
+(* the statement for Stream-reachable states (round 2); the bridge to the widened system is below *)
+Lemma no_timeout_after_death_stream : forall c m x x',
   reach c (base x) -> pp (base x) = PDone -> ~ xstep c m (Some XTimeout) x x'.
 Proof.
   intros c m x x' Hr Hp H.
@@ -684,4 +764,103 @@ Proof.
   { inversion H; subst; simpl; try discriminate; eauto. destruct l; discriminate. }
   destruct Hq as [Hq (k & acc & Hc)].
   destruct (dead_reader_marker_queued c (base x) (S k) acc Hr Hp Hc) as [_ Hn]. contradiction.
+Qed.
+
+(* --- bridge: which states of the widened system are Stream-reachable (review round 4, finding 3).
+   With a consumer that waits for the marker every xreach state is (xreach_waits).  With GiveUp it
+   is so until the consumer fabricates the marker (x_dead); from then on the consumer has left its
+   collect loop for good: done, and at `if imgs` / join / finished. *)
+Definition gave_up_shape (s : st) : Prop :=
+  done_ s = true /\ match cc s with CProcess _ | CJoin | CFinished => True | _ => False end.
+
+Lemma lstep_gave_up_shape : forall c l s s', lstep c l s s' -> gave_up_shape s -> gave_up_shape s'.
+Proof.
+  intros c l s s' H [Hd Hc]. unfold gave_up_shape.
+  inversion H; subst; simpl; try (split; [exact Hd | exact Hc]);
+    try (match goal with E : cc s = _ |- _ => rewrite E in Hc; contradiction end).
+  - split; auto. unfold after_process. rewrite Hd. exact I.
+  - split; auto.
+Qed.
+
+Lemma xreach_base : forall c m x, xreach c m x -> reach c (base x) \/ gave_up_shape (base x).
+Proof.
+  intros c m x H. induction H as [|x x' _ IH [l Hs]].
+  - left. apply reach_init.
+  - inversion Hs; subst; simpl in *; auto.
+    + destruct IH as [Hr|Hg].
+      * left. eapply reach_step; eauto. eexists; eauto.
+      * right. eapply lstep_gave_up_shape; eauto.
+    + right. split; simpl; auto.
+Qed.
+
+(* before the consumer has seen or fabricated a marker, the state is one of Stream.v *)
+Lemma xreach_not_done_reach : forall c m x, xreach c m x -> done_ (base x) = false -> reach c (base x).
+Proof.
+  intros c m x H Hd. destruct (xreach_base c m x H) as [Hr|[Hg _]]; auto. congruence.
+Qed.
+
+Lemma no_timeout_after_death : forall c m x x',
+  xreach c m x -> pp (base x) = PDone -> ~ xstep c m (Some XTimeout) x x'.
+Proof.
+  intros c m x x' Hx Hp H. destruct (xreach_base c m x Hx) as [Hr|[_ Hc]].
+  - eapply no_timeout_after_death_stream; eauto.
+  - assert (Hq : exists k acc, cc (base x) = CCollect (S k) acc).
+    { inversion H; subst; simpl; try discriminate; eauto. destruct l; discriminate. }
+    destruct Hq as (k & acc & E). rewrite E in Hc. contradiction.
+Qed.
+
+(* non-vacuity in the mode the statement is about: the give-up consumer between its time-out and its
+   is_alive() look, the reader already dead, frame and marker queued (the state of the race) *)
+Definition giveup_mid : xst := mkX (mkSt PDone [Frame 0 pl0; Sentinel] (CCollect 1 []) false [] []) true.
+
+Lemma giveup_mid_reachable :
+  xreach giveup_cfg GiveUp giveup_mid /\ pp (base giveup_mid) = PDone /\ reach giveup_cfg (base giveup_mid) /\
+  (exists x', xstep giveup_cfg GiveUp (Some (XAlive false)) giveup_mid x') /\
+  xreach giveup_cfg GiveUp giveup_end /\ ~ reach giveup_cfg (base giveup_end).
+Proof.
+  assert (E : xrun_trace giveup_cfg GiveUp (xinit giveup_cfg)
+                [XEv EvStart; XTimeout; XEv (EvReadOk 0); XEv (EvPut 0 pl0); XEv EvPutSent] = Some giveup_mid)
+    by (vm_compute; reflexivity).
+  destruct (xrun_trace_sound _ _ _ _ _ E) as (ls & Hp & _).
+  assert (Hx : xreach giveup_cfg GiveUp giveup_mid) by (eapply xpath_reach; eauto; apply xreach_init).
+  split; auto. split; [reflexivity|]. split; [apply xreach_not_done_reach with (m := GiveUp); auto|].
+  split; [eexists; apply (x_dead giveup_cfg GiveUp (base giveup_mid) 0 []); reflexivity|].
+  destruct (xrun_trace_sound _ _ _ _ _ giveup_run) as (ls' & Hp' & _).
+  split; [eapply xpath_reach; eauto; apply xreach_init|].
+  intros Hr. destruct (nothing_behind_marker _ _ Hr eq_refl) as [_ Hq]. discriminate.
+Qed.
+
+(* ------------------------------------------------------------------------ *)
+(* non-vacuity examples beside implications that had none (review round 4, finding 9) *)
+
+Lemma ex_marker_seen_state : exists s, reach ex_cfg s /\ done_ s = true /\ pp s = PDone /\ q s = [].
+Proof.
+  destruct (accepts_sound _ _ ex_trace_accepted) as (s & _ & Hr & Hf).
+  exists s. destruct (final_spec_inv ex_cfg s (reach_inv _ _ Hr) Hf) as (Hq & Hd & _).
+  repeat split; auto. apply Hf.
+Qed.
+
+Lemma ex_dead_reader_collecting :
+  reach giveup_cfg (base giveup_mid) /\ pp (base giveup_mid) = PDone /\
+  cc (base giveup_mid) = CCollect 1 [] /\ sentinels (q (base giveup_mid)) = 1.
+Proof. destruct giveup_mid_reachable as (_ & _ & Hr & _). repeat split; auto. Qed.
+
+Lemma ex_labels_outside_selector :
+  bare_frame_selector (mkLReq 3 2 1 (Some 1) true (Some 1) false) = false /\
+  delivered (labels_cfg (mkLReq 3 2 1 (Some 1) true (Some 1) false)) = [0] /\
+  delivered (labels_spec_cfg (mkLReq 3 2 1 (Some 1) true (Some 1) false)) = [0].
+Proof. vm_compute. repeat split; reflexivity. Qed.
+
+Lemma ex_fair_path_with_timeout : exists ls x,
+  xpath giveup_cfg Polling (xinit giveup_cfg) ls x /\ no_two_timeouts ls = true /\
+  In (Some XTimeout) ls /\ length ls = 2.
+Proof.
+  exists [xlabel (Some EvStart); Some XTimeout], (mkX (do_start giveup_cfg (init giveup_cfg)) false).
+  split; [|repeat split; simpl; auto].
+  eapply xp_cons.
+  - apply (x_base giveup_cfg Polling (Some EvStart) (init giveup_cfg) (do_start giveup_cfg (init giveup_cfg)) false).
+    + apply l_start; reflexivity.
+    + discriminate.
+  - eapply xp_cons; [|apply xp_nil].
+    apply (x_timeout_retry giveup_cfg Polling (do_start giveup_cfg (init giveup_cfg)) 0 []); reflexivity.
 Qed.
